@@ -18,7 +18,7 @@ import (
 	"verif/simnet"
 )
 
-var caps = []string{"", "timestamps", "no-sack-permitted", "plain-acks", "closed", "no-handshake", "syn-dropped"}
+var caps = []string{"", "timestamps", "duplicate-synack", "no-sack-permitted", "plain-acks", "closed", "no-handshake", "syn-dropped"}
 
 func unavailable(c string) bool {
 	return c == "no-sack-permitted" || c == "plain-acks" || c == "closed" || c == "syn-dropped"
@@ -52,7 +52,7 @@ func gen(tier string) []proto.RTItem {
 		// non-capability failures (capability fine): every filter installation, every send, every read
 		for _, f := range []simnet.Fault{{Op: "SetPacketFilter", K: 1, Class: "fatal"}, {Op: "SetPacketFilter", K: 2, Class: "fatal"}, {Op: "WriteTo", K: -1, Class: "fatal"}, {Op: "Read", K: -1, Class: "fatal"},
 			{Op: "NewSource", K: 1, Class: "fatal"}, {Op: "NewSink", K: 1, Class: "fatal"}, {Op: "SetReadDeadline", K: -1, Class: "fatal"}} {
-			for _, c := range []string{"", "timestamps"} {
+			for _, c := range []string{"", "timestamps", "duplicate-synack"} {
 				r := req(m, c, 0)
 				r.Faults = []simnet.Fault{f}
 				items = append(items, proto.RTItem{Scn: r, Class: fmt.Sprintf("method=%q/capability=%q/fault-%s-k%d", m, c, f.Op, f.K)})
